@@ -30,14 +30,14 @@ PROJ = {
 # (profile, weight) mixes for the generator
 PROFILES = {
     "C01": [("sharedkey", 3), ("mix", 2), ("big", 1), ("lifetime", 1), ("appreact", 1), ("wide", 1), ("huge", 0.15)],
-    "C02": [("recursion", 3), ("deeprec", 2), ("mix", 1), ("big", 1), ("wide", 1), ("huge", 0.15), ("burst", 1), ("cascade", 1)],
+    "C02": [("recursion", 3), ("deeprec", 2), ("mix", 1), ("big", 1), ("wide", 1), ("huge", 0.15), ("burst", 1), ("cascade", 1), ("deepchain", 0.3)],
     "C03": [("visibility", 3), ("recursion", 2), ("mix", 1), ("ewr", 1), ("dsp", 1), ("wide", 1), ("huge", 0.15), ("burst", 1)],
     "C04": [("visibility", 4), ("recursion", 1), ("mix", 1), ("huge", 0.15)],
     "C05": [("visibility", 2), ("mix", 2), ("recursion", 1), ("lifetime", 1), ("sharedkey", 1), ("wide", 1), ("huge", 0.15)],
     "C06": [("sharedkey", 4), ("lifetime", 2), ("mix", 1), ("wr", 1), ("ewr", 1), ("wide", 1)],
     "C07": [("sharedkey", 3), ("lifetime", 3), ("dsp", 2), ("mix", 1), ("removal2", 1), ("frames", 1), ("appreact", 1), ("wide", 1)],
     "C08": [("removal2", 4), ("dsp", 3), ("cascade", 2), ("frames", 2), ("removal", 1), ("lifetime", 1), ("mix", 1)],
-    "C09": [("recursion", 3), ("deeprec", 3), ("big", 1), ("mix", 1), ("wide", 1), ("huge", 0.15), ("burst", 1), ("cascade", 1)],
+    "C09": [("recursion", 3), ("deeprec", 3), ("big", 1), ("mix", 1), ("wide", 1), ("huge", 0.15), ("burst", 1), ("cascade", 1), ("deepchain", 0.3)],
     "C10": [("signals", 3), ("lifetime", 1), ("frames", 1), ("sigrace", 1)],
     "C11": [("recursion", 2), ("mix", 1), ("lifetime", 1), ("removal", 1), ("dsp", 1), ("removal2", 1), ("cascade", 2), ("frames", 1), ("burst", 1)],
     "C12": [("recursion", 3), ("deeprec", 1), ("visibility", 2), ("mix", 1), ("ewr", 1), ("dsp", 1), ("wide", 1), ("burst", 1)],
